@@ -24,7 +24,7 @@ META = dict(
     id='C18',
     level='proof',
     technique='Coq proof (decode . encode = id for the emacs, csv and xml escaping functions against reader specifications; token/parenthesis structure of the emacs writer; element structure of the xml writer) + differential correspondence of the extracted writers against ledger + python csv/xml.etree/S-expression oracles',
-    level_text='Theorems in coq/Properties/Properties_C18.v state for ALL byte strings that the Emacs-Lisp reader recovers every string escape_string writes, that the whole emacs output lexes to the expected balanced token list and reads back as the tree (file line (hi lo 0) code payee (line account amount state [cost] [note])...); that XML character-data decoding inverts boost\'s entity encoding, the encoded text has no raw < and no & outside the six references, and a tag scanner finds in what the modelled property-tree writer prints exactly the elements of the tree, properly nested (for the transactions, accounts and commodities sections ledger builds, whatever the journal texts are); that an RFC 4180 reader recovers every row written with quoted_rfc; that the DEFAULT csv format (regenerated from report.h on every run) is recovered by the backslash-escape reader for ALL field contents (quoted() escapes both the double quote and the backslash), and by the RFC 4180 reader when no field holds a double quote or a backslash (the RFC reader is refuted by witnesses for each of the two characters - a statement about that reader; the property asks for one conventional reader). Payee overrides (`; Payee: X` tags) are modelled as the code resolves them (post_t::payee(): the payee fixed when the posting line is read, else the inherited tag, else the header): the csv payee cell is proved to be that value, the payee an xml reader recovers (posting <payee> else transaction <payee>) is proved equal to it unless a later note line re-tags a posting whose payee was already fixed (refuted by witness, finding F116), and the emacs payee, one per transaction, only when no tag applies (refuted by witness, finding F115). The model is tied to the code by comparing, byte for byte, ledger\'s csv (default and generated formats), emacs and xml (transactions, account tree, commodities) output with the extracted model on generated journals, and its reader specifications are cross-checked against python csv, expat and an S-expression reader on ledger\'s real output.',
+    level_text='Theorems in coq/Properties/Properties_C18.v state for ALL byte strings that the Emacs-Lisp reader recovers every string escape_string writes, that the whole emacs output lexes to the expected balanced token list and reads back as the tree (file line (hi lo 0) code payee (line account amount state [cost] [note])...); that XML character-data decoding inverts boost\'s entity encoding, the encoded text has no raw < and no & outside the six references, and a tag scanner finds in what the modelled property-tree writer prints exactly the elements of the tree, properly nested (for the transactions, accounts and commodities sections ledger builds, whatever the journal texts are); that an RFC 4180 reader recovers every row written with quoted_rfc; that the DEFAULT csv format (regenerated from report.h on every run) is recovered by the backslash-escape reader for ALL field contents (quoted() escapes both the double quote and the backslash), and by the RFC 4180 reader when no field holds a double quote or a backslash (the RFC reader is refuted by witnesses for each of the two characters - a statement about that reader; the property asks for one conventional reader). Payee overrides (`; Payee: X` tags) are modelled as the code resolves them (post_t::payee(): the stored payee, else the inherited tag, else the header); how the payee is stored is a fact regenerated from textual.cc on every run (Gen/PayeeRule.v: fixed when the posting line is read, or also updated by a Payee tag on a later note line), which selects the model rule and the statement of xml_payee_faithful: with the later-line update the payee an xml reader recovers (posting <payee> else transaction <payee>) is proved equal to the register payee for every posting whose later Payee tags carry a value; with the payee fixed at the posting line that holds only without later-line tags or without a stored payee and is refuted by a witness (finding F116). The csv payee cell is proved to be post_t::payee(); the emacs payee, one per transaction, equals it only when no tag is present (refuted by witness, finding F115). The model is tied to the code by comparing, byte for byte, ledger\'s csv (default and generated formats), emacs and xml (transactions, account tree, commodities) output with the extracted model on generated journals, and its reader specifications are cross-checked against python csv, expat and an S-expression reader on ledger\'s real output.',
     level_note='Trusted: Coq kernel; extraction + OCaml driver and this harness for the correspondence. boost::property_tree\'s XML writer and entity encoder are modelled (Model/Escape.v write_el, xml_encode) and validated by the correspondence, not verified. Amount texts (quantity, commodity, annotated amount) are taken from the register report, as the property text does. The running <total>, <account-amount>, <account-total> subtrees and the id/ref addresses of the xml output are not compared.',
     design_ref='DESIGN.md section 7 C18, section 9 F10 (repaired by /repo 3212d62)',
     assumptions=['free-text fields survive journal parsing unchanged (see EXCLUSIONS in harness/props/c18.py): no tab/newline inside a field, no double space, a payee does not start with `(` unless a code precedes it nor with `*`/`!` on an uncleared transaction, a code has no `)`, an account name is not wrapped in ()/[]/<>, has no empty `:` component and does not start with `;` `*` `!`, a free-text note has no token starting or ending with `:` and no `[` before a digit or `=` (date override); metadata is generated in dedicated note lines (`Key: value`, `:tag:tag:`, `Payee: X`) with string values only (no `Key:: expr`), and no bare `:Payee:` tag',
